@@ -116,14 +116,14 @@ class PStack:
             # values derived from the coordinates (a key / a scale): the
             # layout of the blocks is what this run tracks
             return PyFunc(lambda a, k, n: self if name == "round"
-                          else 1)
+                          or "axis" in k else 1)
         raise Unsupported("stacked points." + name)
 
     def skv_getitem(self, ix):
         return self
 
     def skv_binop(self, op, other, reflected):
-        if isinstance(op, (ast.Div, ast.Mult)):
+        if isinstance(op, (ast.Div, ast.Mult, ast.Sub, ast.Add)):
             return self
         raise Unsupported("arithmetic on stacked points")
 
@@ -150,8 +150,8 @@ def _joins(model, rep):
             return NotImplemented
         if name == "numpy.ascontiguousarray":
             return args[0]
-        if name in ("numpy.abs", "numpy.absolute") and isinstance(
-                args[0], PStack):
+        if name in ("numpy.abs", "numpy.absolute", "numpy.round",
+                    "numpy.around") and isinstance(args[0], PStack):
             return args[0]
         if name == "numpy.cumsum":
             out, tot = [], Poly()
@@ -301,30 +301,139 @@ def _join_coordinates(model, rep):
        f"copies - every vertex moves by up to half a unit of the last kept "
        f"decimal, i.e. by 3 % of the mesh width for a 1 micrometre mesh "
        f"given in metres", fn.lineno)
-    rounds = [n for n in walk_no_nested(fn.node) if isinstance(n, ast.Call)
-              and isinstance(n.func, ast.Attribute)
-              and n.func.attr in ("round", "around")]
-    bad = []
-    for r in rounds:
-        recv = r.func.value if src(r.func.value) not in ("np", "numpy") \
-            else (r.args[0] if r.args else None)
-        text = expand(recv) if recv is not None else ""
-        scaled = any(isinstance(x, ast.BinOp) and isinstance(x.op, ast.Div)
-                     for x in ([recv] if recv is None else ast.walk(recv))) \
-            or any(isinstance(x, ast.BinOp) and isinstance(x.op, ast.Div)
-                   for nm in [y.id for y in ast.walk(recv)
-                              if isinstance(y, ast.Name) and y.id in defs]
-                   for x in ast.walk(defs[nm]))
-        if not scaled:
-            bad.append((r, text))
-    _v(rep, R3, not bad, "Mesh.__add__:scale-free-key",
-       f"{len(rounds)} rounding(s), each of coordinates divided by a scale "
-       f"of the data" if rounds else "no rounding", "Mesh.__add__",
-       f"'{src(bad[0][0])[:60]}' rounds coordinates to a fixed number of "
-       f"decimals: an absolute tolerance - vertices closer than that are "
-       f"merged whatever the size of the mesh (a 10 nm mesh in SI units "
-       f"collapses: 60 of 64 cells get zero area)" if bad else "",
-       bad[0][0].lineno if bad else fn.lineno)
+    # (b) similarity invariance of the merge key.  Abstract value of an
+    # expression: ("aff", 1) - moves with a translation of the meshes, scales
+    # with the unit of length (the coordinates); ("inv", d) - unchanged by a
+    # translation, scales with the d-th power of the unit; ("bad", why).
+    # Whether two vertices are merged must not depend on where the meshes
+    # lie nor on the unit: the key handed to _remove_duplicate_nodes is
+    # ("inv", 0) - or absent / the unrounded coordinates (exact comparison).
+    AFF = ("aff", 1)
+
+    def reduce_axis(call):
+        ax = [k.value for k in call.keywords if k.arg == "axis"]
+        if not ax and len(call.args) >= (
+                2 if src(call.func).startswith("np.") else 1):
+            ax = [call.args[-1]]
+        return ax[0] if ax else None
+
+    def ev(e, depth=0):
+        if depth > 12:
+            return ("bad", "definition chain too deep")
+        if isinstance(e, ast.Constant) and isinstance(
+                e.value, (int, float)):
+            return ("inv", 0)
+        if isinstance(e, ast.Name):
+            if e.id in defs:
+                return ev(defs[e.id], depth + 1)
+            return ("bad", f"unknown name {e.id}")
+        if isinstance(e, ast.Attribute) and e.attr in ("p", "doflocs") \
+                and src(e.value) in ("self", "other"):
+            return AFF
+        if isinstance(e, ast.Attribute) and e.attr == "T":
+            return ev(e.value, depth + 1)
+        if isinstance(e, ast.Subscript):
+            return ev(e.value, depth + 1)
+        if isinstance(e, ast.BoolOp) and isinstance(e.op, ast.Or) and \
+                len(e.values) == 2 and isinstance(e.values[1], ast.Constant):
+            return ev(e.values[0], depth + 1)    # 'x or 1.': fallback for 0
+        if isinstance(e, ast.UnaryOp) and isinstance(e.op, ast.USub):
+            v = ev(e.operand, depth + 1)
+            return ("bad", "negated coordinates") if v == AFF else v
+        if isinstance(e, ast.BinOp):
+            a, b = ev(e.left, depth + 1), ev(e.right, depth + 1)
+            for v in (a, b):
+                if v[0] == "bad":
+                    return v
+            if isinstance(e.op, (ast.Add, ast.Sub)):
+                if a == AFF and b == AFF:
+                    return ("inv", 1) if isinstance(e.op, ast.Sub) else (
+                        "bad", "sum of two positions")
+                if AFF in (a, b):
+                    o = b if a == AFF else a
+                    if o == ("inv", 1) and (a == AFF or isinstance(
+                            e.op, ast.Add)):
+                        return AFF
+                    return ("bad", f"'{src(e)[:40]}' adds a quantity of "
+                                   f"another kind to a position")
+                if a[1] != b[1]:
+                    return ("bad", f"'{src(e)[:40]}' adds quantities of "
+                                   f"different dimension")
+                return a
+            if isinstance(e.op, (ast.Mult, ast.Div)):
+                if AFF in (a, b):
+                    return ("bad", f"'{src(e)[:40]}' scales positions: the "
+                                   f"result depends on where the mesh lies")
+                return ("inv", a[1] + b[1] if isinstance(e.op, ast.Mult)
+                        else a[1] - b[1])
+            return ("bad", f"operator in '{src(e)[:40]}'")
+        if isinstance(e, ast.Call):
+            f = src(e.func)
+            last = f.split(".")[-1]
+            recv = None
+            if isinstance(e.func, ast.Attribute) and src(
+                    e.func.value) not in ("np", "numpy"):
+                recv = e.func.value
+            elif e.args:
+                recv = e.args[0]
+            if last in ("hstack", "vstack", "concatenate", "array") and \
+                    e.args and isinstance(e.args[0], (ast.Tuple, ast.List)):
+                vs = [ev(x, depth + 1) for x in e.args[0].elts]
+                for v in vs:
+                    if v[0] == "bad":
+                        return v
+                return vs[0] if len(set(vs)) == 1 else (
+                    "bad", "stack of quantities of different kinds")
+            if recv is None:
+                return ("bad", f"call {f}")
+            v = ev(recv, depth + 1)
+            if v[0] == "bad":
+                return v
+            if last in ("min", "max", "amin", "amax", "mean", "ptp"):
+                if last == "ptp":
+                    return ("inv", 1) if v == AFF else v
+                if v == AFF and reduce_axis(e) is None:
+                    return ("bad", f"'{src(e)[:40]}' reduces the positions "
+                                   f"over all axes: not carried along by a "
+                                   f"translation")
+                return v
+            if last in ("abs", "absolute", "fabs"):
+                if v == AFF:
+                    return ("bad", f"'{src(e)[:40]}' takes the absolute "
+                                   f"value of positions: the distance from "
+                                   f"the origin, not a size of the mesh")
+                return v
+            if last in ("round", "around", "rint", "floor", "ceil"):
+                if v != ("inv", 0):
+                    return ("bad", f"'{src(e)[:50]}' rounds "
+                                   f"{'positions' if v == AFF else 'lengths'}"
+                                   f" to a fixed number of decimals: an "
+                                   f"absolute tolerance in the unit of the "
+                                   f"coordinates")
+                return v
+            if last in ("copy", "astype", "ascontiguousarray", "asarray"):
+                return v
+            return ("bad", f"call {f}")
+        return ("bad", f"expression {src(e)[:40]}")
+    keyarg = [k.value for k in calls[0].keywords if k.arg == "key"]
+    if not keyarg and len(calls[0].args) > 2:
+        keyarg = [calls[0].args[2]]
+    if not keyarg or (isinstance(keyarg[0], ast.Constant)
+                      and keyarg[0].value is None):
+        # vertices are compared through the coordinates handed over
+        v = ev(calls[0].args[0])
+        v = ("inv", 0) if v == AFF else v
+    else:
+        v = ev(keyarg[0])
+    _v(rep, R3, v in (("inv", 0), AFF), "Mesh.__add__:scale-free-key",
+       "the key by which common vertices are found is unchanged by a "
+       "translation of the operands and by a change of the unit of length",
+       "Mesh.__add__",
+       f"the key by which common vertices are found depends on the position "
+       f"of the meshes or on the unit of length: {v[1]} - distinct vertices "
+       f"are merged for a small mesh in large units or far from the origin "
+       f"(cells collapse), or coincident ones are kept apart",
+       calls[0].lineno)
 
 
 def _higher_order_surgery(model, rep):
@@ -999,8 +1108,19 @@ MUTANTS = [
      (FM, "        return cls(*self._remove_duplicate_nodes(p, t, key=key))",
       "        return cls(*self._remove_duplicate_nodes(key, t))"), "C18-R3"),
     ("common vertices found by rounding the raw coordinates",
-     (FM, "        key = (p / scale).round(decimals=8)",
+     (FM, "        key = ((p - origin) / scale).round(decimals=8)",
       "        key = p.round(decimals=8)"), "C18-R3"),
+    ("merge tolerance relative to the distance from the origin",
+     (FM, "        scale = (p - origin).max() or 1.\n        key = ((p - "
+      "origin) / scale).round(decimals=8)",
+      "        scale = np.abs(p).max() or 1.\n        key = (p / "
+      "scale).round(decimals=8)"), "C18-R3"),
+    ("merge key keeps the offset of the meshes",
+     (FM, "        key = ((p - origin) / scale).round(decimals=8)",
+      "        key = (p / scale).round(decimals=8)"), "C18-R3"),
+    ("merge key rounded before the division by the extent",
+     (FM, "        key = ((p - origin) / scale).round(decimals=8)",
+      "        key = (p - origin).round(decimals=8) / scale"), "C18-R3"),
     ("periodic quadrilateral meshes inherit the triangle split again",
      ("skfem/mesh/mesh_dg.py", "    def to_meshtri(self, *args, **kwargs):\n        raise NotImplementedError\n\n", ""), "C18-R2"),
     ("extrusion walks the levels in stored order",
@@ -1121,6 +1241,12 @@ MUTANTS = [
 _SWAP = ("        t0 = t[0, flip]\n        t1 = t[1, flip]\n"
          "        t[0, flip] = t1\n        t[1, flip] = t0\n")
 TWINS = [
+    ("merge key from the per-axis extent of the joined points",
+     (FM, "        scale = (p - origin).max() or 1.",
+      "        scale = (p.max(axis=1, keepdims=True) - origin).max() or 1.")),
+    ("merge key written with np.round",
+     (FM, "        key = ((p - origin) / scale).round(decimals=8)",
+      "        key = np.round((p - origin) / scale, 8)")),
     ("extrusion walks the sorted levels from the top",
      ("skfem/mesh/mesh_tri_1.py",
       "            for i, p in enumerate(np.sort(other.p[0])):",
